@@ -39,26 +39,44 @@ def run(chk, repo, tier):
     with chk.guard('C16-i', 'detector.collect_charge_bayer'):
         bayer_tiling_rule(chk, repo, 'C16-i')
     # ------------------------------------------------------------ C16-a / b
-    f, paths, _ = analyse(repo, 'detector.collect_charge')
+    # the efficiency look-up (qe_asarray or whatever does its job) is evaluated with the function
+    spectrum = repo.cls('radiometry.Spectrum')
+    inl = ['detector.qe_asarray'] if repo.has_func('detector.qe_asarray') else []
+    f, paths, _ = analyse(repo, 'detector.collect_charge', inline=inl)
     for p in returns(paths):
         es = einsums(p.ret)
-        qc = p.calls('detector.qe_asarray')
-        ok = len(es) == 1 and spec_of(es[0]) == 'ijk,i->jk' and len(qc) == 1 and es[0][2][2] == qc[0].result
+        ok = len(es) == 1 and spec_of(es[0]) == 'ijk,i->jk'
         imgarg = es[0][2][1] if es else None
-        ok = ok and imgarg is not None and ('sym', 'img') in nf.value_atoms(imgarg)
-        chk.ob('C16-a', 'U-einsum', f.key, f'charge = einsum over wavelength [{conds_str(p)}]', ok,
+        warg = es[0][2][2] if es else None
+        ok = ok and imgarg is not None and ('sym', 'img') in nf.value_atoms(imgarg) and \
+            warg is not None and ('sym', 'qe') in nf.value_atoms(warg) and ('sym', 'qe') not in nf.value_atoms(imgarg)
+        chk.ob('C16-a', 'U-einsum', f.key, f'charge = einsum over wavelength of img with the efficiency [{conds_str(p)[-80:]}]', ok,
                f'{nf.fmt_atom(es[0])[:160]}' if es else 'no einsum', f.loc(p.node))
-        okb = len(qc) == 1 and qc[0].bound.get('qe') == S('qe') and qc[0].bound.get('wave') == S('wave') \
-            and qc[0].bound.get('waveunit') == S('waveunit')
-        chk.ob('C16-b', 'D-flow', f.key, f'qe_asarray(qe, wave, waveunit) [{conds_str(p)}]', okb, '', f.loc(p.node))
-    fq, qp, _ = analyse(repo, 'detector.qe_asarray', types={('sym', 'qe'): repo.cls('radiometry.Spectrum')})
-    oks, n = True, 0
-    for p in returns(qp):
-        for e in p.calls('radiometry.Spectrum.sample'):
-            n += 1
-            oks = oks and e.bound.get('waveunit') == S('waveunit') and e.bound.get('wave') == S('wave') and \
-                e.data.get('kwargs', {}).get('waveunit') is not None
-    chk.ob('C16-b', 'B5-default', fq.key, 'waveunit is passed explicitly to Spectrum.sample', oks and n > 0, '', fq.loc())
+    f, paths, _ = analyse(repo, 'detector.collect_charge', inline=inl, types={('sym', 'qe'): spectrum})
+    oks, n, det = True, 0, ''
+    for p in returns(paths):
+        smp = p.calls('radiometry.Spectrum.sample')
+        if not smp:
+            continue
+        n += 1
+        es = einsums(p.ret)
+        e = smp[0]
+        good = len(smp) == 1 and len(es) == 1 and es[0][2][2] == e.result and e.bound.get('self') == S('qe') and \
+            nf.strip_apps(e.bound.get('wave')) == S('wave') and e.bound.get('waveunit') == S('waveunit') and \
+            (e.data.get('kwargs', {}).get('waveunit') is not None or len(e.data.get('args', [])) >= 4)
+        if not good:
+            oks, det = False, f'sample(wave={fmt(e.bound.get("wave"))[:40]}, waveunit={fmt(e.bound.get("waveunit"))[:40]})'
+    chk.ob('C16-b', 'D-flow', f.key, 'a Spectrum efficiency is sampled at `wave` in the caller\'s `waveunit` and weights the planes',
+           oks and n > 0, det or f'{n} path(s)', f.loc())
+    if repo.has_func('detector.qe_asarray'):
+        fq, qp, _ = analyse(repo, 'detector.qe_asarray', types={('sym', 'qe'): spectrum})
+        oks, n = True, 0
+        for p in returns(qp):
+            for e in p.calls('radiometry.Spectrum.sample'):
+                n += 1
+                oks = oks and e.bound.get('waveunit') == S('waveunit') and e.bound.get('wave') == S('wave') and \
+                    e.data.get('kwargs', {}).get('waveunit') is not None
+        chk.ob('C16-b', 'B5-default', fq.key, 'waveunit is passed explicitly to Spectrum.sample', oks and n > 0, '', fq.loc())
 
     fb = repo.func('detector.collect_charge_bayer')
     with chk.guard(['C16-a', 'C16-b', 'C16-c', 'C16-d'], fb.key, 'colour channels recognisable in the result'):
